@@ -88,6 +88,8 @@ type tarMember struct {
 	Uname  string
 	Gname  string
 	Mtime  int
+	Atime  int // PAX/GNU access and change times (0 = not stored)
+	Ctime  int
 	Size   int
 	Link   string
 	Format string
@@ -120,6 +122,12 @@ func readTar(r io.Reader) ([]tarMember, error) {
 		}
 		if h.ModTime.Unix() == 0 {
 			m.Mtime = 0
+		}
+		if !h.AccessTime.IsZero() {
+			m.Atime = int(h.AccessTime.Unix())
+		}
+		if !h.ChangeTime.IsZero() {
+			m.Ctime = int(h.ChangeTime.Unix())
 		}
 		out = append(out, m)
 	}
